@@ -4,6 +4,14 @@ from ..frames.local import to_local
 from ..frames.frames import get_frame
 
 
+def _rebuild(cls, values, data, orb_frame):
+    """Used for unpickling"""
+    obj = np.ndarray.__new__(cls, (6, 6), buffer=np.array(values), dtype=float)
+    obj._data = data
+    obj._orb_frame = orb_frame
+    return obj
+
+
 class Cov(np.ndarray):
     """Covariance matrix"""
 
@@ -55,6 +63,10 @@ class Cov(np.ndarray):
                 txt += f" {self[i, j]: 0.2e} "
             txt += "\n"
         return txt
+
+    def __reduce__(self):
+        """For pickling"""
+        return _rebuild, (self.__class__, np.array(self), self._data, self._orb_frame)
 
     def copy(self, frame=None):
         """"""
